@@ -256,6 +256,8 @@ def run(prog: Program) -> Results:
     no_text_rewriting(prog, res, "R-C01-9", renderer_functions(prog, cg) + [prog.func("NixSourceCode.rebuild")])
     from sa.rules import kinds
     kinds.check(prog, res, "R-C01-11")
+    from sa.rules import linecomment
+    linecomment.check(prog, res, "R-C01-16")
     res.assumptions = ["glue between adjacent tokens (separator presence), line-comment/newline adjacency and integer/let/trailing-"
                        "comma normalisations are value-level facts about concatenated strings and are not decided"]
     return res
